@@ -22,6 +22,8 @@ func init() {
 }
 
 func runC03(c *Ctx) {
+	defer ruleBatchNotOverwritten(c, "C03.28")
+	defer ruleValidLenAfterBody(c, "C03.29")
 	c03Framing(c, "C03.1")
 	c03Order(c, "C03.2")
 	c03TornTail(c, "C03.3")
